@@ -338,6 +338,30 @@ pub fn computed_annotation_family() -> Vec<String> {
             }
         }
     }
+    // Parameters whose type is an *implicit* function type, met by parameters over implicit and over
+    // explicit function types: the type a context entry carries is the one that was written (the closed
+    // program elaborates it on the way in, the caller of the open term supplies it as it is).
+    let implicit_binders = [
+        "(ff : {a : type} -> a -> a) => ",
+        "(ff : {a : type} -> a -> a) => nn : int = 3; mm : int = nn + 1; ",
+        "(tt : type) => (ff : {a : type} -> a -> tt) => ",
+        "(ff : {a : type} -> {b : type} -> a -> b -> a) => ",
+        "(ff : (a : type) -> a -> a) => ",
+    ];
+    let implicit_bodies = [
+        "(gg : ({b : type} -> b -> b) -> int) => gg ff",
+        "(gg : ((b : type) -> b -> b) -> int) => gg ff",
+        "(hh : {c : type} -> c -> c) => if true then ff else hh",
+        "(hh : (c : type) -> c -> c) => if true then ff else hh",
+        "ff",
+        // (no definition groups here: peeling would put an ill-typed definition into the context)
+        "(gg : ({b : type} -> {c : type} -> b -> c -> b) -> int) => gg ff",
+    ];
+    for b in implicit_binders {
+        for body in implicit_bodies {
+            out.push(format!("{b}{body}"));
+        }
+    }
     out
 }
 
